@@ -35,6 +35,7 @@ VARIANTS = {
             "    def __set__(self, inst, v):\n        pass\n"),
 }
 RAW = bytes([1, 2, 3, 4, 2, 65, 66, 7, 8])
+LONG = bytes((i * 7 + 1) & 0xff for i in range(400))
 FORGED = 1_600_000_000
 
 
@@ -66,7 +67,16 @@ def behaviour(cls):
         if any(n == 'a' for n, _, _, _ in cls.get_fields()):
             out['built'] = cls(a=b'abc').pack().hex()
     except Exception as e:
-        out['exc'] = type(e).__name__ + ': ' + str(e)[:100]
+        out['exc'] = type(e).__name__           # (the text names the class: P here, R for the cache-free twin)
+        # a declaration too long for RAW: the same observations on a long input
+        try:
+            p = cls(_initialize_fields=False)
+            out['long_end'] = p.unpack_impl(LONG, 0, root=p)
+            out['long_values'] = [[n, repr(getattr(p, n))] for n, _, _, _ in cls.get_fields()]
+            out['long_packed'] = p.pack().hex()
+            out['long_default'] = cls().pack().hex()
+        except Exception as e2:
+            out['long_exc'] = type(e2).__name__
     return out
 
 
